@@ -13,7 +13,7 @@ RULE = ("seeded scenarios (all objective families, N=1..5, boxes of every kind, 
 ASSUMPTIONS = ["evaluated at quiescent points of the global phase; after Solve only when refineSolution=False (refinement deliberately rewrites the optimum in place)",
                "interval lengths compared within 4 ulp of libm pow", "stored point compared bitwise with a fresh Evolvent of the same bounds and density"]
 SIZES = {"quick": 320, "thorough": 6000}
-CASE_TIMEOUT = 120
+CASE_TIMEOUT = 400
 
 _insert_stats = {"calls": 0, "bad": []}
 _wrapped = False
